@@ -603,6 +603,361 @@ def gen_EngineCpp(repo):
 
 
 # =============================================================================================
+# G3 : dictionary readers / writers / constructors (key tables of every *_from_dict / *_to_dict)
+# =============================================================================================
+_DK_CLASSES = [
+    # (name, module, reader, writer, constructor class (module, class) or None)
+    ("species", "rdnetwork.py", "species_from_dict", "species_to_dict", ("rdnetwork.py", "Species")),
+    ("reaction", "rdnetwork.py", "reaction_from_dict", "reaction_to_dict", ("rdnetwork.py", "Reaction")),
+    ("network", "rdnetwork.py", "rdnetwork_from_dict", "rdnetwork_to_dict", ("rdnetwork.py", "RDNetwork")),
+    ("grid", "rdgridspace.py", "rdgridspace_from_dict", "rdgridspace_to_dict", ("rdgridspace.py", "RDGridSpace")),
+    ("node", "rdgraphspace.py", "rdgraphspacenode_from_dict", "rdgraphspacenode_to_dict", ("rdgraphspace.py", "RDGraphSpaceNode")),
+    ("edge", "rdgraphspace.py", "rdgraphspaceedge_from_dict", "rdgraphspaceedge_to_dict", ("rdgraphspace.py", "RDGraphSpaceEdge")),
+    ("graph", "rdgraphspace.py", "rdgraphspace_from_dict", "rdgraphspace_to_dict", ("rdgraphspace.py", "RDGraphSpace")),
+    ("system", "rdsystem.py", "rdsystem_from_dict", "rdsystem_to_dict", ("rdsystem.py", "RDSystem")),
+    ("script", "rdscript.py", "rdscript_from_dict", "rdscript_to_dict", ("rdscript.py", "RDScript")),
+    ("unitsSystem", "units.py", "unitssystem_from_dict", "unitssystem_to_dict", ("units.py", "UnitsSystem")),
+    ("unitArray", "units.py", "unitarray_from_dict", "unitarray_to_dict", None),
+    ("trajectory", "rdoutput.py", "load_rdtrajectory", "save_rdtrajectory", ("rdoutput.py", "RDTrajectory")),
+]
+
+
+def _dk_is_d_sub(n):
+    """`d["k"]` -> k"""
+    if isinstance(n, ast.Subscript) and isinstance(n.value, ast.Name) and n.value.id == "d" \
+            and isinstance(n.slice, ast.Constant) and isinstance(n.slice.value, str):
+        return n.slice.value
+    return None
+
+
+def _dk_is_d_get(n):
+    """`d.get("k", default)` -> k"""
+    if isinstance(n, ast.Call) and isinstance(n.func, ast.Attribute) and n.func.attr == "get" \
+            and isinstance(n.func.value, ast.Name) and n.func.value.id == "d" and n.args \
+            and isinstance(n.args[0], ast.Constant) and isinstance(n.args[0].value, str):
+        return n.args[0].value
+    return None
+
+
+def _dk_guard_key(test):
+    """`"k" in d` -> k ;  `"k" in d and d["k"] is not None` -> k (the caller records that None counts as omitted)"""
+    if isinstance(test, ast.BoolOp) and isinstance(test.op, ast.And) and len(test.values) == 2:
+        k = _dk_guard_key(test.values[0])
+        t = test.values[1]
+        if k is not None and isinstance(t, ast.Compare) and len(t.ops) == 1 and isinstance(t.ops[0], ast.IsNot) \
+                and _dk_is_d_sub(t.left) == k and isinstance(t.comparators[0], ast.Constant) and t.comparators[0].value is None:
+            return k
+        return None
+    if isinstance(test, ast.Compare) and len(test.ops) == 1 and isinstance(test.ops[0], ast.In) \
+            and isinstance(test.left, ast.Constant) and isinstance(test.left.value, str) \
+            and isinstance(test.comparators[0], ast.Name) and test.comparators[0].id == "d":
+        return test.left.value
+    return None
+
+
+def _dk_reader(src, fn):
+    aliases = None
+    for n in ast.walk(fn):
+        if isinstance(n, ast.Call) and isinstance(n.func, ast.Attribute) and n.func.attr == "process_input_dict_keys":
+            if len(n.args) < 2 or not isinstance(n.args[1], ast.List):
+                raise AnchorLost("%s:%s process_input_dict_keys synonyms literal" % (src.rel, fn.name))
+            aliases = [str_list(g) for g in n.args[1].elts]
+            extra = [k.arg for k in n.keywords] + (["policy"] if len(n.args) > 2 else [])
+            if extra:
+                raise AnchorLost("%s:%s process_input_dict_keys called with a policy" % (src.rel, fn.name))
+    wiring, mandatory, optional_get, units_default = [], [], [], None
+    none_as_omitted, reader_default = [], []
+    varkeys = {}
+    # the dictionary of constructor arguments: the name splatted into a call (`Cls(**da)`), whatever it is called
+    kw_name = "da"
+    for n in ast.walk(fn):
+        if isinstance(n, ast.Call):
+            for kw in n.keywords:
+                if kw.arg is None and isinstance(kw.value, ast.Name) and kw.value.id != "d":
+                    kw_name = kw.value.id
+
+    def keys_of(expr):
+        ks = []
+        for n in ast.walk(expr):
+            k = _dk_is_d_sub(n)
+            if k is None:
+                k = _dk_is_d_get(n)
+            if k is not None and k not in ks:
+                ks.append(k)
+        return ks
+
+    def retrieve_default(expr):
+        for n in ast.walk(expr):
+            if isinstance(n, ast.Call) and getattr(n.func, "attr", getattr(n.func, "id", "")) == "retrive_units_system_from_dict":
+                for kw in n.keywords:
+                    if kw.arg == "default":
+                        return const_str(kw.value)
+                if len(n.args) >= 2:
+                    return const_str(n.args[1])
+                raise AnchorLost("%s:%s retrive_units_system_from_dict default" % (src.rel, fn.name))
+        return None
+
+    def add_wire(k, p):
+        if (k, p) not in wiring:
+            wiring.append((k, p))
+
+    def visit(stmts, guards):
+        nonlocal units_default
+        for st in stmts:
+            if isinstance(st, ast.If):
+                gk = _dk_guard_key(st.test)
+                if gk is not None:
+                    if isinstance(st.test, ast.BoolOp) and gk not in none_as_omitted:
+                        none_as_omitted.append(gk)
+                    visit(st.body, guards + [gk])
+                    if any(isinstance(x, ast.Raise) for x in st.orelse):
+                        if gk not in mandatory:
+                            mandatory.append(gk)
+                    else:
+                        # an else branch that fills the constructor argument itself: the reader's own default
+                        for x in st.orelse:
+                            if isinstance(x, ast.Assign) and len(x.targets) == 1 and isinstance(x.targets[0], ast.Subscript) \
+                                    and isinstance(x.targets[0].value, ast.Name) and x.targets[0].value.id == kw_name:
+                                reader_default.append((gk, re.sub(r"\s+", "", src.seg(x.value))))
+                        visit(st.orelse, guards)
+                else:
+                    # unguarded subscripts in the test itself are mandatory reads
+                    for k in keys_of(st.test):
+                        if k not in guards and not any(_dk_is_d_get(n) == k for n in ast.walk(st.test)) and k not in mandatory:
+                            mandatory.append(k)
+                    visit(st.body, guards)
+                    visit(st.orelse, guards)
+                continue
+            if isinstance(st, (ast.For, ast.While, ast.With, ast.Try)):
+                visit(getattr(st, "body", []), guards)
+                continue
+            # mandatory: a plain d["k"] outside a guard for k (a `d.get("k", ..)` test in the same statement is a guard)
+            got = [_dk_is_d_get(n) for n in ast.walk(st)]
+            for n in ast.walk(st):
+                k = _dk_is_d_sub(n)
+                if k is not None and k not in guards and k not in got and k not in mandatory:
+                    mandatory.append(k)
+                k = _dk_is_d_get(n)
+                if k is not None and k not in optional_get:
+                    optional_get.append(k)
+            if isinstance(st, ast.Assign) and len(st.targets) == 1:
+                tgt = st.targets[0]
+                ud = retrieve_default(st.value)
+                ks = keys_of(st.value)
+                for n in ast.walk(st.value):
+                    if isinstance(n, ast.Name) and n.id in varkeys:
+                        for k in varkeys[n.id]:
+                            if k not in ks:
+                                ks.append(k)
+                if isinstance(tgt, ast.Name) and tgt.id != "d":
+                    if ud is not None:
+                        ks = ks + ["units"]
+                    if ks:
+                        varkeys[tgt.id] = ks
+                    elif guards and tgt.id in varkeys:
+                        pass
+                elif isinstance(tgt, ast.Subscript) and isinstance(tgt.value, ast.Name) and tgt.value.id == kw_name \
+                        and isinstance(tgt.slice, ast.Constant):
+                    p = tgt.slice.value
+                    if ud is not None:
+                        units_default = ud
+                        add_wire("units", p)
+                    else:
+                        if guards:
+                            add_wire(guards[-1], p)
+                        else:
+                            for k in ks:
+                                add_wire(k, p)
+            if isinstance(st, ast.Return) and st.value is not None:
+                v = st.value
+                if isinstance(v, ast.Call):
+                    if any(kw.arg is None and isinstance(kw.value, ast.Name) and kw.value.id == "d" for kw in v.keywords):
+                        for g in (aliases or []):          # Cls(**d): every canonical key is its own parameter
+                            add_wire(g[0], g[0])
+                    for kw in v.keywords:
+                        if kw.arg is None:
+                            continue
+                        ks = keys_of(kw.value)
+                        for n in ast.walk(kw.value):
+                            if isinstance(n, ast.Name) and n.id in varkeys:
+                                ks += [k for k in varkeys[n.id] if k not in ks]
+                        for k in ks:
+                            add_wire(k, kw.arg)
+
+    visit(fn.body, [])
+    return aliases, wiring, mandatory, optional_get, units_default, none_as_omitted, reader_default
+
+
+def _dk_writer(src, fn):
+    emitted, cond = [], []
+    lit = None
+    for n in ast.walk(fn):
+        if isinstance(n, ast.Assign) and len(n.targets) == 1 and isinstance(n.targets[0], ast.Name) \
+                and n.targets[0].id == "d" and isinstance(n.value, ast.Dict) and lit is None:
+            lit = n.value
+        if isinstance(n, ast.Return) and isinstance(n.value, ast.Dict) and lit is None:
+            lit = n.value
+    if lit is None:
+        raise AnchorLost("%s:%s dict literal" % (src.rel, fn.name))
+    for k in lit.keys:
+        emitted.append(const_str(k))
+
+    def visit(stmts, conditional):
+        for st in stmts:
+            if isinstance(st, ast.If):
+                # a key assigned in both branches of an if/else is unconditional
+                def assigned(body):
+                    out = []
+                    for s in body:
+                        if isinstance(s, ast.Assign) and len(s.targets) == 1:
+                            k = _dk_is_d_sub(s.targets[0])
+                            if k is not None:
+                                out.append(k)
+                    return out
+                a, b = assigned(st.body), assigned(st.orelse)
+                for k in a + b:
+                    if k in a and k in b and not conditional:
+                        if k not in emitted:
+                            emitted.append(k)
+                    elif k not in emitted and k not in cond:
+                        cond.append(k)
+                continue
+            if isinstance(st, ast.Assign) and len(st.targets) == 1:
+                k = _dk_is_d_sub(st.targets[0])
+                if k is not None:
+                    (cond if conditional else emitted).append(k) if k not in emitted + cond else None
+    visit(fn.body, False)
+    return emitted, cond
+
+
+def _dk_ctor(repo, mod, cls):
+    src = PySrc(repo, "src/strengths/" + mod)
+    init = src.func("__init__", cls)
+    a = init.args
+    if a.vararg or a.kwarg or a.kwonlyargs:
+        raise AnchorLost("%s:%s.__init__ signature shape" % (mod, cls))
+    names = [x.arg for x in a.args][1:]
+    defaults = [None] * (len(names) - len(a.defaults)) + [re.sub(r"\s+", "", src.seg(d)) for d in a.defaults]
+    return list(zip(names, defaults))
+
+
+@group
+def gen_DictKeys(repo):
+    def opt(s):
+        return "none" if s is None else "(some %s)" % lean_str(s)
+
+    L = ["namespace Strengths.Gen.DictKeys\n",
+         "/-- what the source says about one dictionary form: the synonym groups its reader accepts, how the\n"
+         "canonical keys are wired to constructor parameters, which keys the reader insists on, the default of the\n"
+         "`units` key, the keys its writer emits (always / under a condition) and the constructor signature -/",
+         "structure Table where",
+         "  name : String",
+         "  aliases : List (List String)",
+         "  wiring : List (String × String)",
+         "  mandatory : List String",
+         "  optionalGet : List String",
+         "  unitsDefault : Option String",
+         "  noneAsOmitted : List String",
+         "  readerDefault : List (String × String)",
+         "  emitted : List String",
+         "  emittedCond : List String",
+         "  ctor : List (String × Option String)",
+         "  deriving DecidableEq, Repr\n"]
+    srcs = {}
+    names = []
+    for name, mod, reader, writer, ctor in _DK_CLASSES:
+        if mod not in srcs:
+            srcs[mod] = PySrc(repo, "src/strengths/" + mod)
+        src = srcs[mod]
+        aliases, wiring, mandatory, optget, udef, none_om, rdef = _dk_reader(src, src.func(reader))
+        if aliases is None and name != "trajectory":
+            raise AnchorLost("%s:%s process_input_dict_keys call" % (mod, reader))
+        if name == "trajectory":
+            aliases = [[k] for k in mandatory + [k for k in optget if k not in mandatory]]
+        emitted, cond = _dk_writer(src, src.func(writer))
+        params = _dk_ctor(repo, *ctor) if ctor else []
+        if name == "unitArray":
+            # UnitArray(d["value"], d["units"]) : positional wiring onto the data parameters
+            wiring = [("value", "value"), ("units", "units")]
+            params = [(p, d) for p, d in _dk_ctor(repo, "units.py", "UnitArray") if p in ("value", "units")]
+        L.append("/-- `%s` / `%s`%s -/" % (reader, writer, (" / `%s.__init__`" % ctor[1]) if ctor else ""))
+        L.append("def %s : Table where" % name)
+        L.append("  name := %s" % lean_str(name))
+        L.append("  aliases := %s" % lean_list([lean_list([lean_str(k) for k in g]) for g in aliases]))
+        L.append("  wiring := %s" % lean_list(["(%s, %s)" % (lean_str(k), lean_str(p)) for k, p in wiring]))
+        L.append("  mandatory := %s" % lean_list([lean_str(k) for k in mandatory]))
+        L.append("  optionalGet := %s" % lean_list([lean_str(k) for k in optget]))
+        L.append("  unitsDefault := %s" % opt(udef))
+        L.append("  noneAsOmitted := %s" % lean_list([lean_str(k) for k in none_om]))
+        L.append("  readerDefault := %s" % lean_list(["(%s, %s)" % (lean_str(k), lean_str(v)) for k, v in rdef]))
+        L.append("  emitted := %s" % lean_list([lean_str(k) for k in emitted]))
+        L.append("  emittedCond := %s" % lean_list([lean_str(k) for k in cond]))
+        L.append("  ctor := %s\n" % lean_list(["(%s, %s)" % (lean_str(p), opt(d)) for p, d in params]))
+        names.append(name)
+    L.append("def all : List Table := %s\n" % lean_list(names))
+
+    # ---- accepted-value lists used by the constructors behind the readers
+    def not_in_list(src, fn, what):
+        for n in ast.walk(fn):
+            if isinstance(n, ast.Compare) and len(n.ops) == 1 and isinstance(n.ops[0], (ast.NotIn, ast.In)) \
+                    and isinstance(n.comparators[0], ast.List):
+                try:
+                    return str_list(n.comparators[0])
+                except AnchorLost:
+                    continue
+        raise AnchorLost("%s:%s accepted-value list (%s)" % (src.rel, fn.name, what))
+
+    def setter(src, cls, prop):
+        for n in src.tree.body:
+            if isinstance(n, ast.ClassDef) and n.name == cls:
+                for f in n.body:
+                    if isinstance(f, ast.FunctionDef) and f.name == prop and any(
+                            isinstance(d, ast.Attribute) and d.attr == "setter" for d in f.decorator_list):
+                        return f
+        raise AnchorLost("%s:%s.%s setter" % (src.rel, cls, prop))
+
+    scr = srcs["rdscript.py"]
+    L.append("/-- accepted values of `RDScript.sampling_policy` / `init_state_processing` -/")
+    L.append("def pyPolicies : List String := %s" % lean_list([lean_str(s) for s in not_in_list(scr, setter(scr, "RDScript", "sampling_policy"), "policies")]))
+    L.append("def pyModes : List String := %s" % lean_list([lean_str(s) for s in not_in_list(scr, setter(scr, "RDScript", "init_state_processing"), "modes")]))
+    grid = srcs["rdgridspace.py"]
+    sbc = grid.func("set_boundary_conditions", "RDGridSpace")
+    lists = []
+    for n in ast.walk(sbc):
+        if isinstance(n, ast.Compare) and len(n.ops) == 1 and isinstance(n.ops[0], ast.NotIn) and isinstance(n.comparators[0], ast.List):
+            lists.append(str_list(n.comparators[0]))
+    if len(lists) != 2:
+        raise AnchorLost("rdgridspace.py:set_boundary_conditions axis / condition lists")
+    L.append("/-- `set_boundary_conditions`: accepted axes, accepted conditions, initial condition per axis -/")
+    L.append("def bcAxes : List String := %s" % lean_list([lean_str(s) for s in lists[0]]))
+    L.append("def bcValues : List String := %s" % lean_list([lean_str(s) for s in lists[1]]))
+    init_bc = None
+    for n in ast.walk(sbc):
+        if isinstance(n, ast.Assign) and isinstance(n.value, ast.Dict) and isinstance(n.targets[0], ast.Attribute) \
+                and n.targets[0].attr == "_boundary_conditions":
+            init_bc = [(const_str(k), const_str(v)) for k, v in zip(n.value.keys, n.value.values)]
+    if init_bc is None:
+        raise AnchorLost("rdgridspace.py:set_boundary_conditions initial dict")
+    L.append("def bcInitial : List (String × String) := %s" % lean_list(["(%s, %s)" % (lean_str(a), lean_str(b)) for a, b in init_bc]))
+    # rdspace_from_dict dispatch on "type"
+    sp = PySrc(repo, "src/strengths/rdspace.py")
+    f = sp.func("rdspace_from_dict")
+    types, dflt_type = [], None
+    for n in ast.walk(f):
+        if isinstance(n, ast.Compare) and len(n.ops) == 1 and isinstance(n.ops[0], ast.Eq) and _dk_is_d_sub(n.left) == "type":
+            types.append(const_str(n.comparators[0]))
+        if isinstance(n, ast.Assign) and _dk_is_d_sub(n.targets[0]) == "type":
+            dflt_type = const_str(n.value)
+    if not types or dflt_type is None:
+        raise AnchorLost("rdspace.py:rdspace_from_dict type dispatch")
+    L.append("/-- `rdspace_from_dict`: dispatch values of \"type\" and the value assumed when the key is absent -/")
+    L.append("def spaceTypes : List String := %s" % lean_list([lean_str(s) for s in types]))
+    L.append("def spaceTypeDefault : String := %s" % lean_str(dflt_type))
+    L.append("\nend Strengths.Gen.DictKeys")
+    return "\n".join(L) + "\n"
+
+
+# =============================================================================================
 # C18 : the text pipeline of units.py (parse_units pre/post-processing, parse_unitvalue,
 #       Units.__str__, UnitValue.__str__, Units.__eq__)
 # =============================================================================================
